@@ -113,7 +113,25 @@ void prop(DP &dp, const ref::Bytes &sched, Ctx &ctx) {
 				if (!on) absent.push_back(&b);
 			}
 			MNode nn;
-			if (!absent.empty() && !dp.chance(50)) {
+			// re-login: a connected leaf board shows up at another address although its loss was never reported
+			// (re-plugged to another hub; the old hub's NODE_LOST is late). The board must be reachable at the new address.
+			std::vector<size_t> movable;
+			for (size_t i = 1; i < model.size(); i++) {
+				if (!model[i].alive || model[i].board.empty() || i == p) continue;
+				bool has_child = false;
+				for (auto &m : model) if (m.alive && m.addr.size() > model[i].addr.size() && std::equal(model[i].addr.begin(), model[i].addr.end(), m.addr.begin())) has_child = true;
+				bool p_below = model[p].addr.size() >= model[i].addr.size() && std::equal(model[i].addr.begin(), model[i].addr.end(), model[p].addr.begin());
+				if (!has_child && !p_below) movable.push_back(i);
+			}
+			if (!movable.empty() && dp.chance(70)) {
+				size_t k = movable[dp.pick((unsigned) movable.size())];
+				nn.uid = model[k].uid;
+				nn.board = model[k].board;
+				model[k].alive = false;
+				model[k].board.clear();
+				ctx.tag("relogin-without-node-lost");
+				ctx.desc << "  (re-login of " << nn.board << ", no NODE_LOST before)\n";
+			} else if (!absent.empty() && !dp.chance(50)) {
 				const cfg::Board *b = absent[dp.pick((unsigned) absent.size())];
 				nn.uid = b->uid;
 				nn.board = b->id;
